@@ -92,7 +92,7 @@ def strategy(tier):
     return st.fixed_dictionaries({'rows': st.tuples(st.integers(0, 4), st.integers(0, 4)).map(list), 'init': init,
                                   'bundle': _bundle(uw, rw)})
   # most bundles are fully resolvable (deep part of the space); some carry unknown reference values / row ids
-  return weighted((5, case(0, 0)), (1, case(12, 0)), (1, case(0, 6)), (1, case(20, 12)))
+  return weighted((5, case(0, 0)), (1, case(12, 0)), (1, case(0, 3)), (1, case(20, 12)))
 
 
 # ---------------------------------------------------------------------------
